@@ -50,6 +50,13 @@ impl Rng {
     }
 }
 
+/// the PRNG of one case: a function of (run seed, suite, case index) only, so that a single case can be regenerated
+pub fn case_rng(seed: u64, suite: u64, i: usize) -> Rng {
+    let mut r = Rng::new(seed ^ suite.wrapping_mul(0xD6E8_FEB8_6659_FD93) ^ (i as u64).wrapping_mul(0x9E37_79B9_7F4A_7C15));
+    r.next();
+    r
+}
+
 pub fn hex(bs: &[u8]) -> String {
     if bs.is_empty() {
         return "-".to_owned();
